@@ -156,6 +156,21 @@ type paramSink struct {
 	idx  int
 	kind sinkKind
 	via  string
+	wrap string // grouping constants wrapped around the value on the way to the sink
+}
+
+// groupingConsts returns the constant operands of a concatenation that
+// contain regexp grouping characters (a wrapper such as "^(?:" … ")$" is only
+// safe for a value that was validated inside the same wrapper: an unterminated
+// \Q…  in the value swallows the closing parenthesis).
+func groupingConsts(info *types.Info, e ast.Expr) string {
+	var out []string
+	for _, part := range flattenConcat(e) {
+		if s, ok := constString(info, part); ok && strings.ContainsAny(s, "()[]") {
+			out = append(out, s)
+		}
+	}
+	return strings.Join(out, " … ")
 }
 
 func runC18(c *Ctx) {
@@ -166,6 +181,7 @@ func runC18(c *Ctx) {
 
 	// ---- validated table ----
 	validated := map[string]map[sinkKind]bool{} // "Type.field" -> kinds
+	validatedWrap := map[string]string{}        // "Type.field" -> grouping constants used at validation
 	cfgPkg := p.Pkg("internal/config")
 	if cfgPkg == nil {
 		c.Undecided("C18-R1", "anchor:internal/config", token.NoPos, "package not found")
@@ -192,6 +208,9 @@ func runC18(c *Ctx) {
 						validated[k] = map[sinkKind]bool{}
 					}
 					validated[k][kind] = true
+					if kind == kRegexp {
+						validatedWrap[k] = groupingConsts(info, call.Args[0])
+					}
 				}
 			}
 			return true
@@ -216,6 +235,7 @@ func runC18(c *Ctx) {
 		arg  ast.Expr
 		kind sinkKind
 		via  string
+		wrap string
 	}
 	var sites []site
 	funcs := p.AllFuncs()
@@ -242,25 +262,28 @@ func runC18(c *Ctx) {
 				switch x := n.(type) {
 				case *ast.CallExpr:
 					var kinds []struct {
-						k   sinkKind
-						idx int
-						via string
+						k    sinkKind
+						idx  int
+						via  string
+						wrap string
 					}
 					if k, idx, ok := sinkOfCall(info, pm, x); ok {
 						kinds = append(kinds, struct {
-							k   sinkKind
-							idx int
-							via string
-						}{k, idx, calleeName(info, x)})
+							k    sinkKind
+							idx  int
+							via  string
+							wrap string
+						}{k, idx, calleeName(info, x), ""})
 					}
 					if fn := Callee(info, x); fn != nil {
 						for _, s := range psinks {
 							if s.fn == fn {
 								kinds = append(kinds, struct {
-									k   sinkKind
-									idx int
-									via string
-								}{s.kind, s.idx, funcQName(fn) + " -> " + s.via})
+									k    sinkKind
+									idx  int
+									via  string
+									wrap string
+								}{s.kind, s.idx, funcQName(fn) + " -> " + s.via, s.wrap})
 							}
 						}
 					}
@@ -275,13 +298,37 @@ func runC18(c *Ctx) {
 							}
 						}
 						for _, a := range args {
-							sites = append(sites, site{fi, x, a, kk.k, kk.via})
+							wrap := kk.wrap
+							if kk.k == kRegexp {
+								if g := groupingConsts(info, a); g != "" {
+									if wrap != "" {
+										wrap += " … "
+									}
+									wrap += g
+								}
+							}
+							sites = append(sites, site{fi, x, a, kk.k, kk.via, wrap})
 							for _, o := range originOf(p, fi, a, 0) {
 								if o.param != nil {
 									for i := 0; i < sig.Params().Len(); i++ {
-										if sig.Params().At(i) == o.param && !hasPS(fi.Obj, i, kk.k) {
-											psinks = append(psinks, paramSink{fi.Obj, i, kk.k, kk.via})
-											changed = true
+										if sig.Params().At(i) == o.param {
+											found := false
+											for j := range psinks {
+												if psinks[j].fn == fi.Obj && psinks[j].idx == i && psinks[j].kind == kk.k {
+													found = true
+													if wrap != "" && !strings.Contains(psinks[j].wrap, wrap) {
+														if psinks[j].wrap != "" {
+															psinks[j].wrap += " | "
+														}
+														psinks[j].wrap += wrap
+														changed = true
+													}
+												}
+											}
+											if !found {
+												psinks = append(psinks, paramSink{fi.Obj, i, kk.k, kk.via, wrap})
+												changed = true
+											}
 										}
 									}
 								}
@@ -313,12 +360,12 @@ func runC18(c *Ctx) {
 						if !isSink {
 							continue
 						}
-						sites = append(sites, site{fi, nil, kv.Value, k, "field " + tq + "." + id.Name})
+						sites = append(sites, site{fi, nil, kv.Value, k, "field " + tq + "." + id.Name, ""})
 						for _, o := range originOf(p, fi, kv.Value, 0) {
 							if o.param != nil {
 								for i := 0; i < sig.Params().Len(); i++ {
 									if sig.Params().At(i) == o.param && !hasPS(fi.Obj, i, k) {
-										psinks = append(psinks, paramSink{fi.Obj, i, k, "field " + tq + "." + id.Name})
+										psinks = append(psinks, paramSink{fi.Obj, i, k, "field " + tq + "." + id.Name, ""})
 										changed = true
 									}
 								}
@@ -356,9 +403,18 @@ func runC18(c *Ctx) {
 			seen[key] = true
 			keys = append(keys, key)
 			okV := validated[o.cfgType+"."+o.cfgField][validatorFor[s.kind]]
-			// a templated regexp also validates the raw flavour's syntax? no: keep exact constructor agreement
+			detail := "reaches " + s.via
+			if okV && s.wrap != "" {
+				// every grouping wrapper used at the sink must have been used at validation time as well
+				for _, w := range strings.Split(s.wrap, " | ") {
+					if w != "" && !strings.Contains(validatedWrap[o.cfgType+"."+o.cfgField], w) {
+						okV = false
+						detail += " wrapped in the grouping constants `" + w + "`, while validate() compiles it without that wrapper (a value such as `\\Qa|b` is valid alone but swallows the closing parenthesis)"
+					}
+				}
+			}
 			pos := s.arg.Pos()
-			obs[key] = ob{okV, pos, "reaches " + s.via}
+			obs[key] = ob{okV, pos, detail}
 		}
 	}
 	sort.Strings(keys)
@@ -564,6 +620,59 @@ func c18ErrNil(c *Ctx) {
 			return true
 		})
 	}
+	// calls and dereferences through an unchecked map lookup: m[k](…) / m[k].f on nilable element types
+	nMap := 0
+	for _, fi := range p.AllFuncs() {
+		if fi.Decl.Body == nil || p.IsTestFile(fi.Decl.Pos()) {
+			continue
+		}
+		info := fi.Pkg.TypesInfo
+		ast.Inspect(fi.Decl.Body, func(nd ast.Node) bool {
+			var ix *ast.IndexExpr
+			what := ""
+			switch x := nd.(type) {
+			case *ast.CallExpr:
+				if i, ok := ast.Unparen(x.Fun).(*ast.IndexExpr); ok {
+					ix, what = i, "called"
+				}
+			case *ast.SelectorExpr:
+				if i, ok := ast.Unparen(x.X).(*ast.IndexExpr); ok {
+					ix, what = i, "dereferenced (."+x.Sel.Name+")"
+				}
+			}
+			if ix == nil {
+				return true
+			}
+			mt, isMap := info.TypeOf(ix.X).Underlying().(*types.Map)
+			if !isMap {
+				return true
+			}
+			switch mt.Elem().Underlying().(type) {
+			case *types.Signature, *types.Pointer, *types.Interface:
+			default:
+				return true
+			}
+			// the same element was stored just before in this function
+			stored := false
+			ast.Inspect(fi.Decl.Body, func(m ast.Node) bool {
+				if as, ok := m.(*ast.AssignStmt); ok && as.Pos() < nd.Pos() {
+					for _, l := range as.Lhs {
+						if exprStr(l) == exprStr(ix) {
+							stored = true
+						}
+					}
+				}
+				return true
+			})
+			if stored {
+				return true
+			}
+			nMap++
+			c.Bad("C18-R2", fi.Name+":"+exprStr(ix)+" "+what+" without presence check", nd.Pos(), "the element of map lookup "+exprStr(ix)+" is "+what+" directly; a key that is absent (e.g. a value accepted at load time but not in the table) yields nil and panics")
+			return true
+		})
+	}
+	c.Ok("C18-R2", "unchecked map-lookup uses enumerated", token.NoPos, itoa(nMap)+" found")
 	var wn []string
 	for fn, from := range nilWrappers {
 		wn = append(wn, funcQName(fn)+"<-"+from)
@@ -662,6 +771,70 @@ func c18Coverage(c *Ctx, cfgPkg *packages.Package) {
 			})
 			c.Check(called, "C18-R3", key, f.Pos(), "validate() called", tq+"."+f.Name()+" is never validated when the configuration is loaded: everything its validate() rejects is accepted")
 		}
+	}
+	// a config value is not modified between its validate() call and its use: stores to validated
+	// fields of a local config struct after validate() bypass the validation
+	for _, fi := range p.AllFuncs() {
+		if fi.Pkg != cfgPkg || fi.Decl.Body == nil || p.IsTestFile(fi.Decl.Pos()) || fi.Obj.Name() == "validate" {
+			continue
+		}
+		var fl *Flow
+		ast.Inspect(fi.Decl.Body, func(n ast.Node) bool {
+			call, ok := n.(*ast.CallExpr)
+			if !ok {
+				return true
+			}
+			fn := Callee(info, call)
+			if fn == nil || fn.Name() != "validate" {
+				return true
+			}
+			sel, ok := call.Fun.(*ast.SelectorExpr)
+			if !ok {
+				return true
+			}
+			id, ok := ast.Unparen(sel.X).(*ast.Ident)
+			if !ok {
+				return true
+			}
+			v, isVar := info.Uses[id].(*types.Var)
+			if !isVar || v.IsField() {
+				return true
+			}
+			if fl == nil {
+				fl = p.NewFlow(fi)
+			}
+			var vsite *Site
+			for _, sm := range fl.Find(func(x ast.Node) bool { return x == call }) {
+				st := sm.Site
+				vsite = &st
+			}
+			if vsite == nil {
+				return true
+			}
+			bad := ""
+			for _, sm := range fl.Find(func(x ast.Node) bool {
+				as, ok := x.(*ast.AssignStmt)
+				if !ok {
+					return false
+				}
+				for _, l := range as.Lhs {
+					if ls, ok := ast.Unparen(l).(*ast.SelectorExpr); ok {
+						if lid, ok := ast.Unparen(ls.X).(*ast.Ident); ok && info.Uses[lid] == v && strings.HasPrefix(fieldOwner(info, ls), "internal/config.") {
+							return true
+						}
+					}
+				}
+				return false
+			}) {
+				target := sm.Site
+				if r, _ := fl.Reach(vsite.After(), func(x Site) bool { return x == target }, false, PathQ{}); r {
+					bad = p.Pos(sm.Inner.Pos()) + " " + exprStr(sm.Inner.(*ast.AssignStmt).Lhs[0])
+				}
+			}
+			key := fi.Name + ":" + id.Name + " not modified after " + id.Name + ".validate()"
+			c.Check(bad == "", "C18-R3", key, call.Pos(), "validated value used as is", "field "+bad+" is assigned after the value was validated: what reaches the constructors later was never checked")
+			return true
+		})
 	}
 	// Load returns the validation error
 	if load := c.MustFunc("C18-R3", "internal/config.Load"); load != nil {
